@@ -27,7 +27,8 @@ func (ex *Exec) builtinCall(fr *Frame, st *State, site ssa.Instruction, b *ssa.B
 			if !l.hasBound {
 				ex.fact(nil, Ge(l, IntT(0)))
 			}
-			return []Val{l}
+			// a nil map is empty
+			return []Val{Ite(Eq(args[0].(*Term), Null()), IntT(0), l)}
 		case *types.Array:
 			return []Val{IntT(u.Len())}
 		case *types.Pointer:
